@@ -173,10 +173,44 @@ func c14Ctor(p *an.Prog, r *an.Report, T *types.Named, c, v *ssa.Function) {
 			qs = append(qs, c14Quantity{label: prm.Name() + "==nil", nilOf: i})
 		}
 	}
+	// an integer argument (flags, counts) is additionally evaluated with each pointer/interface
+	// argument fixed to nil and to non-nil: rules of the form "flag bit set <=> optional part present"
+	// involve both
+	var combos []c14Quantity
+	for _, q := range qs {
+		if q.nilOf >= 0 || q.obj != "" {
+			continue
+		}
+		for j, prm := range c.Params {
+			j := j
+			switch prm.Type().Underlying().(type) {
+			case *types.Pointer, *types.Interface:
+			default:
+				continue
+			}
+			base := q
+			for _, st := range []struct {
+				av  an.AV
+				tag string
+			}{{an.AV{K: an.KNil}, "==nil"}, {an.AV{K: an.KNonNil, Tag: "arg"}, "!=nil"}} {
+				st := st
+				nq := base
+				nq.label = base.label + " with " + prm.Name() + st.tag
+				nq.args = func() []an.AV {
+					a := rootArgs(c)
+					a[j] = st.av
+					return a
+				}
+				combos = append(combos, nq)
+			}
+		}
+	}
+	qs = append(qs, combos...)
 	vRecvPtr := false
 	if len(v.Params) > 0 {
 		_, vRecvPtr = v.Params[0].Type().Underlying().(*types.Pointer)
 	}
+	baseRejected := map[string]an.IvSet{}
 	for _, q := range qs {
 		key := an.FnKey(c) + "/" + q.label
 		pos := p.FnPos(c)
@@ -276,6 +310,12 @@ func c14Ctor(p *an.Prog, r *an.Report, T *types.Named, c, v *ssa.Function) {
 			}
 			r.Check(!mustFailNil, "C14.N2", key, pos, what, fmt.Sprintf("%d success paths of the constructor with this argument nil", nsucc))
 			continue
+		}
+		// a combination only adds what the argument alone does not already show
+		if i := strings.Index(q.label, " with "); i >= 0 {
+			rejected = rejected.Minus(baseRejected[q.label[:i]])
+		} else {
+			baseRejected[q.label] = rejected
 		}
 		what := "every value of " + q.label + " the constructor accepts is accepted by Validate()"
 		if !rejected.Empty() {
